@@ -74,3 +74,11 @@ pub mod ctype {
         crate::ctype::isalnum(ch)
     }
 }
+
+pub mod nodes {
+    //! Wrappers around crate-private items of `crate::nodes`.
+    use crate::nodes::NodeValue;
+    pub fn xml_node_name(v: &NodeValue) -> &'static str {
+        v.xml_node_name()
+    }
+}
